@@ -220,7 +220,7 @@ fn main() {
         serde_json::from_value(input["root"]["history"].clone()).unwrap_or_else(|_| base_history())
     } else { base_history() };
     let drv = if args.driver.as_os_str() == "none" { None } else { Some(Driver::spawn(&args.driver).expect("driver")) };
-    let mut cx = Ctx { exe: &exe, scratch: &scratch, tokens: all_tokens(&history), known, verbose: args.extra.contains_key("verbose"),
+    let mut cx = Ctx { exe: &exe, scratch: &scratch, tokens: all_tokens(&history), known, verbose: args.extra.contains_key("verbose") || args.mode == "replay",
                        thorough: args.thorough, drv, rng: XRng(args.seed ^ 0xc04) };
     match record_history(&exe, &scratch, &history) {
         Err(e) => sum.disagreement("recorder failed (strace parse / simulated file system self-check)", json!({"history": history}), "-", &e),
